@@ -261,6 +261,12 @@ def _remove_matched_tasks(
 
     if to_kill:
         schd.kill_tasks(to_kill, warn=False)
+        # kill_tasks() holds the tasks it kills (to prevent retries). The
+        # removed task proxies stay held, but that must not hold future
+        # instances of the removed tasks:
+        for itask in to_kill:
+            schd.pool.tasks_to_hold.discard((itask.tdef.name, itask.point))
+        schd.workflow_db_mgr.put_tasks_to_hold(schd.pool.tasks_to_hold)
 
     if removed:
         tasks_str_list = []
